@@ -85,6 +85,17 @@ def _weights(z):
     return (w + 0.25j).astype(np.complex128) if z.dtype.kind == "c" else w.astype(np.float64)
 
 
+def _single(z):
+    """The same signal in single precision (same container)."""
+    return type(z).like(z, z.data.astype(np.complex64 if z.dtype.kind == "c" else np.float32))
+
+
+def per_elem(z, vals):
+    """One value per element of the sample shape (e.g. per channel AND polarisation)."""
+    n = int(np.prod(z.sample_shape))
+    return np.array([vals[i % len(vals)] for i in range(n)], dtype=float).reshape(z.sample_shape)
+
+
 def per_chan(z, vals):
     n = z.sample_shape[0] if z.sample_shape else 1
     return np.array([vals[i % len(vals)] for i in range(n)], dtype=float)
@@ -129,6 +140,12 @@ OPS = [
     ("coherent ref top", is_bb, lambda z: pb.coherent_dedispersion(z, _dm_for(z, -1.7), ref_freq=z.max_freq)),
     ("coherent supplied chirp", is_bb,
      lambda z: pb.coherent_dedispersion(z, _dm_for(z), chirp=_dm_for(z).chirp_from_signal(z))),
+    ("coherent, double-precision chirp supplied for single-precision data", is_bb,
+     lambda z: pb.coherent_dedispersion(_single(z), _dm_for(z), chirp=np.asarray(_dm_for(z).chirp_from_signal(z)).astype(np.complex128))),
+    ("freq_shift per (channel, polarisation)", lambda z: is_bb(z) and len(z.sample_shape) >= 2,
+     lambda z: pb.freq_shift(z, per_elem(z, [1.0, -2.5, 0.0, 3.25, -1.0]) * z.sample_rate / len(z))),
+    ("time_shift per (channel, polarisation)", lambda z: floaty(z) and len(z.sample_shape) >= 2,
+     lambda z: pb.time_shift(z, per_elem(z, [0.5, -1.25, 2.0, 0.0, -3.0]))),
     ("chirp_from_signal", is_bb, lambda z: _dm_for(z).chirp_from_signal(z)),
     ("incoherent", is_radio, lambda z: pb.incoherent_dedispersion(z, _dm_for(z, 3.3))),
     ("incoherent ref bottom", is_radio, lambda z: pb.incoherent_dedispersion(z, _dm_for(z, -2.6), ref_freq=z.min_freq)),
